@@ -292,13 +292,17 @@ class Ctm(Pipeline):
             wfn, chan = (uid, "A") if mapping == "none" else (f"w{k // 2}", "AB"[k % 2])
             utts.append({"id": uid, "wfn": wfn, "chan": chan, "toks": toks})
         return {"utts": utts, "mapping": mapping, "fs": fs, "chan_flag": rng.choice([None, "B", "1"]), "shuffle_lines": rng.randrange(1 << 16), "swap1": rng.random() < 0.3,
-                "comments": rng.random() < 0.4, "back_mapping": rng.choice(["same", "other"])}
+                "comments": rng.random() < 0.4, "back_mapping": rng.choice(["same", "other"]),
+                # flags added later (drawn last so that the older fields keep their derivation)
+                "swap2": rng.random() < 0.3, "unk": rng.random() < 0.25, "sizing": rng.choice(["times", "times", "times", "times", "skip", "feat"])}
 
     @staticmethod
     def run(sc, s, cfg, res):
         lines = []
         for u in sc["utts"]:
-            for tok, st, du in u["toks"]:
+            for j, (tok, st, du) in enumerate(u["toks"]):
+                if sc.get("unk") and (st + j) % 3 == 0:
+                    tok = "zz"  # out of vocabulary: becomes --unk-symbol
                 lines.append(f"{u['wfn']} {u['chan']} {st / 1000:.3f} {du / 1000:.3f} {tok}" + ("  ;; c" if sc["comments"] else ""))
         random.Random(sc["shuffle_lines"]).shuffle(lines)
         with open(s.p("in.ctm"), "w") as f:
@@ -306,20 +310,35 @@ class Ctm(Pipeline):
                 f.write(";; header comment\n\n")
             f.write("\n".join(lines) + ("\n" if lines else ""))
         write_vocab(s.p("t2i"), sc["swap1"])
-        write_vocab(s.p("i2t"), True)
+        write_vocab(s.p("i2t"), not sc.get("swap2"))
         with open(s.p("wc2utt"), "w") as f:
             for u in sc["utts"]:
                 f.write(f"{u['wfn']} {u['chan']} {u['id']}\n")
         with open(s.p("utt2wc"), "w") as f:
             for u in sc["utts"]:
                 f.write(f"{u['id']} {u['wfn']} {u['chan']}\n")
-        a1 = [s.p("in.ctm"), s.p("t2i"), s.p("tok")] + naming_args(sc) + cfg.args() + ["--frame-shift-ms", sc["fs"]]
+        sizing = sc.get("sizing", "times")
+        a1 = [s.p("in.ctm"), s.p("t2i"), s.p("tok")] + naming_args(sc) + cfg.args() + {"times": ["--frame-shift-ms", sc["fs"]], "skip": ["--skip-frame-times"], "feat": ["--feat-sizing"]}[sizing]
         if sc["swap1"]:
             a1.append("--swap")
+        if sc.get("unk"):
+            a1 += ["--unk-symbol", "<unk>"]
         if sc["mapping"] != "none":
             a1 += ["--" + sc["mapping"], s.p(sc["mapping"])]
         o1 = run_command("ctm_to_torch_token_data_dir", a1)
+        if sizing != "times":
+            # tokens only: there is no way back to a ctm; the stored tensors are judged instead
+            stored = {}
+            if os.path.isdir(s.p("tok")):
+                for fn in os.listdir(s.p("tok")):
+                    try:
+                        stored[fn] = torch.load(s.p("tok", fn))
+                    except Exception as e:  # noqa
+                        stored[fn] = e
+            return {"status": status_of([o1]), "snap": {"tok": snapshot(s.p("tok"))}, "printed": None, "outcomes": [o1], "stored": stored}
         a2 = [s.p("tok"), s.p("i2t"), s.p("out.ctm")] + naming_args(sc) + ["--frame-shift-ms", sc["fs"]]
+        if sc.get("swap2"):
+            a2.append("--swap")
         if sc["mapping"] != "none":
             m = sc["mapping"] if sc["back_mapping"] == "same" else ("utt2wc" if sc["mapping"] == "wc2utt" else "wc2utt")
             a2 += ["--" + m, s.p(m)]
@@ -336,10 +355,32 @@ class Ctm(Pipeline):
                 res.violate("ctm.command-failed", f"ctm pipeline command {k + 1} failed: {type(o.exc).__name__ if o.exc else o.rc}: {o.exc}", pipeline="ctm", cmd=k + 1)
                 return
         fs = sc["fs"] / 1000.0
+
+        def seen(u):
+            return [("<unk>" if sc.get("unk") and (st + j) % 3 == 0 else tok, st, du) for j, (tok, st, du) in enumerate(u["toks"])]
+
+        if sc.get("sizing", "times") != "times":
+            # --skip-frame-times: (R,) ids; --feat-sizing: (R, 1) ids; in order of start time
+            want_files = {fname(sc, u["id"]) for u in sc["utts"]}
+            if set(out["stored"]) != want_files:
+                res.violate("ctm.file-set", f"ctm -> token dir ({sc['sizing']}): files {sorted(out['stored'])}, expected {sorted(want_files)}", pipeline="ctm")
+                return
+            for u in sc["utts"]:
+                t = out["stored"][fname(sc, u["id"])]
+                toks = sorted(seen(u), key=lambda x: x[1])
+                ids = [TOK2ID[x[0]] for x in toks]
+                shape = (len(ids),) if sc["sizing"] == "skip" else (len(ids), 1)
+                ties = len({x[1] for x in toks}) < len(toks)
+                ok = torch.is_tensor(t) and tuple(t.shape) == shape and t.dtype == torch.long and ((sorted(t.flatten().tolist()) == sorted(ids)) if ties else (t.flatten().tolist() == ids))
+                if not ok:
+                    res.violate("ctm.tokens-only", f"ctm -> token dir with {'--skip-frame-times' if sc['sizing'] == 'skip' else '--feat-sizing'}, utterance {u['id']}: stored "
+                                f"{t.tolist() if torch.is_tensor(t) else t!r}, expected ids {ids} in a tensor of shape {shape}", pipeline="ctm", what=sc["sizing"])
+                    return
+            return
         want = {}
         for u in sc["utts"]:
             chan = u["chan"] if sc["mapping"] != "none" else (sc["chan_flag"] or "A")
-            want[(u["wfn"], chan)] = sorted([(st / 1000.0, (st + du) / 1000.0, tok) for tok, st, du in u["toks"]])
+            want[(u["wfn"], chan)] = sorted([(st / 1000.0, (st + du) / 1000.0, tok) for tok, st, du in seen(u)])
         got = {}
         rows = []
         for l in (out["printed"] or "").splitlines():
@@ -455,23 +496,30 @@ class Tg(Pipeline):
         fmt = rng.choice(["long", "long", "short"])
         return {"utts": utts, "prec": prec, "fs": rng.choice([10.0, 20.0, 25.0, 16.0, 15.0]), "fill": fill, "tier_by": rng.choice(["default", "name", "idx"] if fmt == "long" else ["default", "name"]),
                 "tg_format": fmt,
-                "tg_suffix": rng.choice([".TextGrid", ".tg"]), "out_prec": rng.choice([None, 2, 4]), "len_from": rng.choice(["infer", "feat"]), "out_tier": rng.choice([None, "words"])}
+                "tg_suffix": rng.choice([".TextGrid", ".tg"]), "out_prec": rng.choice([None, 2, 4]), "len_from": rng.choice(["infer", "feat"]), "out_tier": rng.choice([None, "words"]),
+                # flags added later (drawn last so that the older fields keep their derivation)
+                "swap1": rng.random() < 0.3, "swap2": rng.random() < 0.3, "unk": rng.random() < 0.25, "sizing": rng.choice(["times", "times", "times", "times", "skip", "feat"]),
+                "quiet": rng.random() < 0.3, "force": rng.random() < 0.3}
 
     @staticmethod
     def run(sc, s, cfg, res):
         os.makedirs(s.p("tg"))
         os.makedirs(s.p("feat"))
         for u in sc["utts"]:
-            tiers = [u["tier"], u["other"]] if (u["first"] or sc["tier_by"] != "name") else [u["other"], u["tier"]]
+            main = u["tier"]
+            if sc.get("unk"):
+                # out-of-vocabulary labels: they become --unk-symbol
+                main = dict(main, items=[["zz" if (a + j) % 3 == 0 else tok, a, b] for j, (tok, a, b) in enumerate(main["items"])])
+            tiers = [main, u["other"]] if (u["first"] or sc["tier_by"] != "name") else [u["other"], main]
             if sc["tier_by"] == "idx":
-                tiers = [u["other"], u["tier"]]
+                tiers = [u["other"], main]
 
             def sec(t):
                 return dict(t, xmin=t["xmin"] / 1000, xmax=t["xmax"] / 1000, items=[(a, b / 1000, c / 1000) for a, b, c in t["items"]])
 
             if sc["tg_format"] == "short":
                 # the short format is what write_textgrid emits: one tier
-                txt = render_textgrid([sec(u["tier"])], 0.0, u["tier"]["xmax"] / 1000, sc["prec"])
+                txt = render_textgrid([sec(main)], 0.0, u["tier"]["xmax"] / 1000, sc["prec"])
             else:
                 txt = render_long_textgrid([sec(t) for t in tiers], 0.0, max(t["xmax"] for t in tiers) / 1000, sc["prec"])
             with open(s.p("tg", sc["prefix"] + u["id"] + sc["tg_suffix"]), "w") as f:
@@ -480,9 +528,14 @@ class Tg(Pipeline):
             torch.save(torch.zeros(T, 2), s.p("feat", fname(sc, u["id"])))
         with open(s.p("tg", "README.md"), "w") as f:
             f.write("stray\n")
-        write_vocab(s.p("t2i"), False)
-        write_vocab(s.p("i2t"), True)
-        a1 = [s.p("tg"), s.p("t2i"), s.p("tok")] + naming_args(sc) + cfg.args() + ["--frame-shift-ms", sc["fs"]]
+        write_vocab(s.p("t2i"), bool(sc.get("swap1")))
+        write_vocab(s.p("i2t"), not sc.get("swap2"))
+        sizing = sc.get("sizing", "times")
+        a1 = [s.p("tg"), s.p("t2i"), s.p("tok")] + naming_args(sc) + cfg.args() + {"times": ["--frame-shift-ms", sc["fs"]], "skip": ["--skip-frame-times"], "feat": ["--feat-sizing"]}[sizing]
+        if sc.get("swap1"):
+            a1.append("--swap")
+        if sc.get("unk"):
+            a1 += ["--unk-symbol", "<unk>"]
         if sc["tg_suffix"] != ".TextGrid":
             a1 += ["--textgrid-suffix", sc["tg_suffix"]]
         if sc["tier_by"] == "name":
@@ -492,7 +545,25 @@ class Tg(Pipeline):
         if sc["fill"]:
             a1 += ["--fill-symbol", "sil"]
         o1 = run_command("textgrids_to_torch_token_data_dir", a1)
+        if sizing != "times":
+            stored = {}
+            if os.path.isdir(s.p("tok")):
+                for fn in os.listdir(s.p("tok")):
+                    try:
+                        stored[fn] = torch.load(s.p("tok", fn))
+                    except Exception as e:  # noqa
+                        stored[fn] = e
+            return {"status": status_of([o1]), "snap": {"tok": snapshot(s.p("tok"))}, "outcomes": [o1], "stored": stored}
         a2 = [s.p("tok"), s.p("i2t"), s.p("tg2")] + naming_args(sc) + cfg.args() + ["--frame-shift-ms", sc["fs"]]
+        if sc.get("swap2"):
+            a2.append("--swap")
+        if sc.get("quiet"):
+            a2.append("--quiet")
+        if sc.get("force") and sc["utts"]:
+            # the method the documentation says is chosen anyway: 1 for intervals of non-zero length, 2 for points
+            kinds = {u["tier"]["point"] and not sc["fill"] for u in sc["utts"]}
+            if len(kinds) == 1:
+                a2 += ["--force-method", 2 if kinds.pop() else 1]
         a2 += ["--infer"] if sc["len_from"] == "infer" else ["--feat-dir", s.p("feat")]
         if sc["tg_suffix"] != ".TextGrid":
             a2 += ["--textgrid-suffix", sc["tg_suffix"]]
@@ -510,13 +581,40 @@ class Tg(Pipeline):
                 res.violate("tg.command-failed", f"TextGrid pipeline command {k + 1} failed: {type(o.exc).__name__ if o.exc else o.rc}: {o.exc}", pipeline="tg", cmd=k + 1)
                 return
         fs = sc["fs"] / 1000.0
+
+        def label(u, j, tok, a):
+            return "<unk>" if sc.get("unk") and (a + j) % 3 == 0 else tok
+
+        if sc.get("sizing", "times") != "times":
+            want_tok = {fname(sc, u["id"]) for u in sc["utts"]}
+            if set(out["stored"]) != want_tok:
+                res.violate("tg.file-set", f"TextGrid -> token dir ({sc['sizing']}): files {sorted(out['stored'])}, expected {sorted(want_tok)}", pipeline="tg")
+                return
+            for u in sc["utts"]:
+                items = sorted([(label(u, j, tok, a), a, b) for j, (tok, a, b) in enumerate(u["tier"]["items"])], key=lambda x: x[1])
+                toks, t0 = [], u["tier"]["xmin"]
+                for tok, a, b in items:
+                    if sc["fill"] and t0 < a:
+                        toks.append("sil")
+                    toks.append(tok)
+                    t0 = b
+                if sc["fill"] and t0 < u["tier"]["xmax"]:
+                    toks.append("sil")
+                ids = [TOK2ID[x] for x in toks]
+                t = out["stored"][fname(sc, u["id"])]
+                shape = (len(ids),) if sc["sizing"] == "skip" else (len(ids), 1)
+                if not (torch.is_tensor(t) and tuple(t.shape) == shape and t.dtype == torch.long and t.flatten().tolist() == ids):
+                    res.violate("tg.tokens-only", f"TextGrid -> token dir with {'--skip-frame-times' if sc['sizing'] == 'skip' else '--feat-sizing'}, utterance {u['id']}: stored "
+                                f"{t.tolist() if torch.is_tensor(t) else t!r}, expected ids {ids} in a tensor of shape {shape}", pipeline="tg", what=sc["sizing"])
+                    return
+            return
         want_files = {sc["prefix"] + u["id"] + sc["tg_suffix"] for u in sc["utts"]}
         if set(out["snap"]["tg2"]) != want_files or set(out["snap"]["tok"]) != {fname(sc, u["id"]) for u in sc["utts"]}:
             res.violate("tg.file-set", f"TextGrid round trip produced files {sorted(out['snap']['tg2'])} / {sorted(out['snap']['tok'])}, expected one per utterance", pipeline="tg")
             return
         for u in sc["utts"]:
             tier = u["tier"]
-            items = [(tok, a / 1000.0, b / 1000.0) for tok, a, b in tier["items"]]
+            items = [(label(u, j, tok, a), a / 1000.0, b / 1000.0) for j, (tok, a, b) in enumerate(tier["items"])]
             if sc["fill"]:
                 filled, t = [], tier["xmin"] / 1000.0
                 for tok, a, b in sorted(items, key=lambda x: x[1]):
@@ -607,7 +705,9 @@ class Er(Pipeline):
                 "costs": rng.choice([None, None, None, "nist", [1.0, 2.0, 1.0], [2.0, 1.0, 3.0], [1.0, 1.0, 2.0]]), "id2token": rng.random() < 0.6, "dims": rng.choice([1, 2]),
                 "hyp_positional": rng.random() < 0.5,
                 # stored ids below zero (a -> -1, b -> -2, ...): legal ids that coincide with values a command may use internally
-                "neg_ids": rng.random() < 0.2}
+                "neg_ids": rng.random() < 0.2,
+                # the vocabulary file in '<token> <id>' order with --swap; one hypothesis missing with --warn-missing
+                "swap": rng.random() < 0.3, "missing": rng.random() < 0.2}
 
     @staticmethod
     def run(sc, s, cfg, res):
@@ -623,7 +723,10 @@ class Er(Pipeline):
                 torch.save(t, os.path.join(d, fname(sc, u["id"])))
         with open(s.p("i2t"), "w") as f:
             for tok, _ in VOCAB:
-                f.write(f"{TOK2ID[tok]} {tok}\n")
+                f.write(f"{tok} {TOK2ID[tok]}\n" if sc.get("swap") else f"{TOK2ID[tok]} {tok}\n")
+        gone = Er.missing_utt(sc)
+        if gone is not None:
+            os.remove(os.path.join(hd, fname(sc, gone)))
 
         def enc(x):
             return x if sc["id2token"] else str(TOK2ID[x])
@@ -641,7 +744,9 @@ class Er(Pipeline):
             if not sc["hyp_positional"]:
                 a = [s.p("d")] + naming_args(sc) + ["--batch-size", bs, "--quiet"]
             if sc["id2token"]:
-                a += ["--id2token", s.p("i2t")]
+                a += ["--id2token", s.p("i2t")] + (["--swap"] if sc.get("swap") else [])
+            if gone is not None:
+                a.append("--warn-missing")
             if sc["replace"]:
                 a += ["--replace", s.p("replace")]
             if sc["ignore"]:
@@ -663,7 +768,18 @@ class Er(Pipeline):
         return {"status": status_of(outs), "snap": {}, "printed": printed, "outcomes": outs}
 
     @staticmethod
+    def missing_utt(sc):
+        """With --warn-missing an utterance lacking its hypothesis is excluded (needs another one to remain)."""
+        if sc.get("missing") and len(sc["utts"]) >= 2:
+            return sorted(u["id"] for u in sc["utts"])[len(sc["utts"]) // 2]
+        return None
+
+    @staticmethod
     def oracle(sc, s, out, res):
+        gone = Er.missing_utt(sc)
+        if gone is not None:
+            sc = dict(sc, utts=[u for u in sc["utts"] if u["id"] != gone])
+            res.bump("probe.er_missing_hypothesis_excluded")
         rep = dict(sc["replace"] or [])
         ign = set(sc["ignore"] or [])
         ins, dele, sub = (3.0, 3.0, 4.0) if sc["costs"] == "nist" else (sc["costs"] or [1.0, 1.0, 1.0])
@@ -731,24 +847,32 @@ class Subset(Pipeline):
         crit = rng.choice(["first-n", "last-n", "first-ratio", "last-ratio", "shortest-n", "longest-n", "shortest-ratio", "longest-ratio", "utt-list", "utt-list-file", "rand-n", "rand-ratio"])
         return {"utts": utts, "crit": crit, "n_arg": rng.randrange(0, n + 3), "ratio": rng.choice([0.0, 0.25, 0.5, 0.34, 1.0]),
                 "listed": rng.sample([u["id"] for u in utts] + ["nosuch"], rng.randrange(1, n + 1)), "style": rng.choice(["link", "copy", "symlink"]), "seed": rng.randrange(100),
-                "with_ali_dir": rng.random() < 0.8, "with_ref_dir": rng.random() < 0.8, "only": rng.random() < 0.2}
+                "with_ali_dir": rng.random() < 0.8, "with_ref_dir": rng.random() < 0.8, "only": rng.random() < 0.2,
+                "subdirs": rng.choice([None, None, None, ["fbank", "pdf", "txt"]])}  # --feat-subdir / --ali-subdir / --ref-subdir
+
+    @staticmethod
+    def names(sc):
+        return sc.get("subdirs") or ["feat", "ali", "ref"]
 
     @staticmethod
     def run(sc, s, cfg, res):
-        for d in ["feat"] + (["ali"] if sc["with_ali_dir"] else []) + (["ref"] if sc["with_ref_dir"] else []):
+        FD, AD, RD = Subset.names(sc)
+        for d in [FD] + ([AD] if sc["with_ali_dir"] else []) + ([RD] if sc["with_ref_dir"] else []):
             os.makedirs(s.p("src", d))
         for k, u in enumerate(sc["utts"]):
-            torch.save(torch.full((u["T"], 2), float(k)), s.p("src", "feat", fname(sc, u["id"])))
+            torch.save(torch.full((u["T"], 2), float(k)), s.p("src", FD, fname(sc, u["id"])))
             if sc["with_ali_dir"] and u["ali"]:
-                torch.save(torch.full((u["T"],), k, dtype=torch.long), s.p("src", "ali", fname(sc, u["id"])))
+                torch.save(torch.full((u["T"],), k, dtype=torch.long), s.p("src", AD, fname(sc, u["id"])))
             if sc["with_ref_dir"] and u["ref"]:
-                torch.save(torch.tensor([k, k + 1]), s.p("src", "ref", fname(sc, u["id"])))
-        with open(s.p("src", "feat", "stray.txt"), "w") as f:
+                torch.save(torch.tensor([k, k + 1]), s.p("src", RD, fname(sc, u["id"])))
+        with open(s.p("src", FD, "stray.txt"), "w") as f:
             f.write("x")
         with open(s.p("list"), "w") as f:
             f.write("\n".join(sc["listed"]) + "\n")
-        src = s.p("src", "feat") if sc["only"] else s.p("src")
+        src = s.p("src", FD) if sc["only"] else s.p("src")
         a = [src, s.p("dest")] + naming_args(sc) + cfg.args()
+        if sc.get("subdirs") and not sc["only"]:
+            a += ["--feat-subdir", FD, "--ali-subdir", AD, "--ref-subdir", RD]
         c = sc["crit"]
         if c == "utt-list":
             a += ["--utt-list"] + sc["listed"]
@@ -803,7 +927,8 @@ class Subset(Pipeline):
         else:
             want = None
         snap = out["snap"]["dest"]
-        feat_sd = "" if sc["only"] else "feat/"
+        FD, AD, RD = Subset.names(sc)
+        feat_sd = "" if sc["only"] else FD + "/"
         got = {k[len(feat_sd):] for k in snap if k.startswith(feat_sd) and "/" not in k[len(feat_sd):]} if feat_sd else set(snap)
         got_ids = set()
         for fn in got:
@@ -828,9 +953,9 @@ class Subset(Pipeline):
             expect[feat_sd + fn] = ("tensor", "torch.float32", (u["T"], 2), [[float(k)] * 2] * u["T"])
             if not sc["only"]:
                 if sc["with_ali_dir"] and u["ali"]:
-                    expect["ali/" + fn] = ("tensor", "torch.int64", (u["T"],), [k] * u["T"])
+                    expect[AD + "/" + fn] = ("tensor", "torch.int64", (u["T"],), [k] * u["T"])
                 if sc["with_ref_dir"] and u["ref"]:
-                    expect["ref/" + fn] = ("tensor", "torch.int64", (2,), [k, k + 1])
+                    expect[RD + "/" + fn] = ("tensor", "torch.int64", (2,), [k, k + 1])
         if set(snap) != set(expect):
             res.violate("subset.files", f"destination files {sorted(snap)} != files of the requested utterances {sorted(expect)}", pipeline="subset")
             return
@@ -877,7 +1002,8 @@ class Stats(Pipeline):
                 ref.append([rng.randrange(4), a, b] if rng.random() < 0.85 else [rng.randrange(4), -1, -1])
             utts.append({"id": uid, "ali": ali, "ref": ref, "F": 2})
         return {"utts": utts, "what": rng.choice(["ali", "ref", "mvn", "info"]), "bessel": rng.random() < 0.4, "std": rng.random() < 0.4, "prec": rng.choice([3, 3, 1, 5]),
-                "exclude": rng.choice([None, None, [0], [1, 3]]), "groups": rng.choice([0, 0, 2]), "salt": rng.randrange(1000)}
+                "exclude": rng.choice([None, None, [0], [1, 3]]), "groups": rng.choice([0, 0, 2]), "salt": rng.randrange(1000),
+                "strict": rng.random() < 0.3}  # ref length moments: --strict (error when boundary info is missing) instead of --quiet
 
     @staticmethod
     def size(sc):
@@ -908,7 +1034,7 @@ class Stats(Pipeline):
             if sc["exclude"]:
                 a += ["--exclude-ids"] + sc["exclude"]
             if w == "ref":
-                a.append("--quiet")
+                a.append("--strict" if sc.get("strict") else "--quiet")
             o = run_command(f"print_torch_{w}_data_dir_length_moments", a)
             printed = open(s.p("out.txt")).read() if os.path.exists(s.p("out.txt")) else None
         elif w == "mvn":
@@ -936,6 +1062,17 @@ class Stats(Pipeline):
         w = sc["what"]
         n = len(sc["utts"])
         if w in ("ali", "ref"):
+            if w == "ref" and sc.get("strict"):
+                ex0 = set(sc["exclude"] or [])
+                lacking = any(a < 0 and tok not in ex0 for u in sc["utts"] for tok, a, b in u["ref"])
+                failed = o.exc is not None or bool(o.rc)
+                if lacking != failed:
+                    res.violate("stats.strict", f"ref length moments --strict: boundary info is {'missing' if lacking else 'complete'} (outside the excluded ids) and the command "
+                                f"{'failed' if failed else 'succeeded'}", pipeline="stats", what="strict")
+                    return
+                if failed:
+                    res.bump("probe.strict_refused_missing_boundaries")
+                    return
             if o.exc is not None or o.rc:
                 res.violate("stats.command-failed", f"{w} length-moment printer failed: {type(o.exc).__name__ if o.exc else o.rc}: {o.exc}", pipeline="stats", what=w)
                 return
